@@ -36,6 +36,10 @@ extern int (*env_alloc_hook)(long k);   /* return 1 to fail this allocation */
 enum { ENV_OP_GCM_INIT = 1, ENV_OP_GCM_READY, ENV_OP_GCM_ENC, ENV_OP_CBC_INIT, ENV_OP_CBC_ENC, ENV_OP_CHACHA_INIT, ENV_OP_CHACHA_ENC };
 extern void (*env_crypto_hook)(int op, const void *ctx, const unsigned char *a, int alen, const unsigned char *b, unsigned blen);
 
+/* mutex seam (env.c) */
+extern void (*env_lock_hook)(void *mutex);
+extern void (*env_unlock_hook)(void *mutex);
+
 /* ----------------------------------------------------------------- util.c */
 typedef struct { unsigned char *p; size_t len, cap; } buf_t;
 void  buf_init(buf_t *b);
